@@ -562,4 +562,212 @@ theorem C12_axes_concat :
             refine ⟨?_, fun k hk => alGet_alSet_ne _ _ _ _ hk⟩
             rw [alGet_alSet_same, strideSet_copies proto vals arr' a.index step cell hl hidx hs]
 
+
+/-! ## refusals -/
+
+/-- every group kind has a role (`flattened_roles[0]` exists) -/
+def Sys.RolesOK (sys : Sys) : Prop := ∀ g ∈ sys.groups, g.flatRoles ≠ []
+
+/-- **C12_refuses_class.**  Whatever the document, an error of the entity phase of
+`build_from_entities` (persons, groups, memberships, buffered values) is never an ordinary
+exception: it is a situation error (or the document uses a value form outside the model). -/
+theorem C12_refuses_class (sys : Sys) (hsys : sys.RolesOK) (dp : Option String)
+    (params : List (DKey × Doc)) (hasAxes : Bool) (e : BErr)
+    (h : buildEntities sys dp params hasAxes = .error e) : e ≠ .other := by
+  unfold buildEntities at h
+  split at h
+  · cases h; decide
+  · split at h
+    · cases h; decide
+    · split at h
+      · cases h; decide
+      · split at h
+        · rename_i e' he; cases h; exact addPersonEntity_error he
+        · rename_i pids pws _
+          have : ∀ (l : List GroupKind), (∀ g ∈ l, g.flatRoles ≠ []) → ∀ (st : BState) (e : BErr),
+              foldE (groupsStep sys dp params hasAxes pids) st l = .error e → e ≠ .other := by
+            intro l
+            induction l with
+            | nil => intro _ st e h; cases h
+            | cons g gs ih =>
+              intro hl st e h
+              unfold foldE at h
+              cases hg : groupsStep sys dp params hasAxes pids st g with
+              | error e' => rw [hg] at h; cases h; exact groupsStep_error (hl g List.mem_cons_self) hg
+              | ok st' => rw [hg] at h; exact ih (fun g' hg' => hl g' (List.mem_cons_of_mem _ hg')) st' e h
+          exact this sys.groups hsys _ e h
+
+/-- **C12_refuses** (1): unknown entity, no person.  A key that is no entity plural, a missing,
+empty or null persons object: situation error, before anything else is looked at. -/
+theorem C12_refuses_unknown_entity (sys : Sys) (dp : Option String) (params : List (DKey × Doc)) (hasAxes : Bool) :
+    (params.any (fun kv => unexpectedKey sys kv.1) = true →
+      buildEntities sys dp params hasAxes = .error .situation) ∧
+    (params.any (fun kv => unexpectedKey sys kv.1) = false →
+      (lookupS sys.personPlural params = none ∨ ∃ pj, lookupS sys.personPlural params = some pj ∧ pj.truthy = false) →
+      buildEntities sys dp params hasAxes = .error .situation) := by
+  refine ⟨?_, ?_⟩
+  · intro h; unfold buildEntities; rw [if_pos h]
+  · intro h hp
+    unfold buildEntities
+    rw [h]
+    simp only [Bool.false_eq_true, if_false]
+    rcases hp with hn | ⟨pj, hs, ht⟩
+    · rw [hn]
+    · rw [hs]; simp [ht]
+
+/-- a group kind is refused as soon as its instances list an unknown person, list a person twice
+(in one role, two roles or two groups), give too many holders to a role, or list something that
+is not text -/
+theorem C12_refuses_membership (sys : Sys) (dp : Option String) (g : GroupKind) (personsIds : List String)
+    (kvs : List (DKey × Doc)) (buf : Buffer)
+    (hbad : (∃ p ∈ listedPersons g kvs, p ∉ personsIds) ∨ ¬ (listedPersons g kvs).Nodup ∨
+      (∃ kv ∈ kvs, ∃ ikvs, kv.2.asObj? = some ikvs ∧ (roleDocs g ikvs).all maxOk = false) ∨
+      (∃ kv ∈ kvs, kv.2.asObj? = none)) :
+    ∀ r, addGroupEntity sys dp g personsIds (.obj kvs) buf ≠ .ok r := by
+  intro ⟨e, buf'⟩ h
+  obtain ⟨acc, hf, _⟩ := addGroupEntity_ok h
+  obtain ⟨⟨hnd, hmem, _⟩, _, _, hmax⟩ := groupLoop_ok kvs _ acc hf
+  rcases hbad with ⟨p, hp, hn⟩ | hn | ⟨kv, hkv, ikvs, ho, hm⟩ | ⟨kv, hkv, ho⟩
+  · exact hn (hmem p hp).2
+  · exact hn hnd
+  · obtain ⟨ikvs', ho', hm'⟩ := hmax kv hkv
+    rw [ho] at ho'; cases ho'
+    rw [hm] at hm'; cases hm'
+  · obtain ⟨ikvs', ho', _⟩ := hmax kv hkv
+    rw [ho] at ho'; cases ho'
+
+/-- the persons are refused as soon as one instance names an unknown variable or a variable of
+another entity, spells a period that does not parse, or gives a value that `checkSetValue`
+refuses (text for a number, unknown enum name, impossible date, a list or an object as a value:
+see `C12_refuses_value`) -/
+theorem C12_refuses_person_input (sys : Sys) (dp : Option String) (kvs : List (DKey × Doc))
+    (idk : DKey) (vars : List (DKey × Doc)) (hi : (idk, Doc.obj vars) ∈ kvs)
+    (vk : DKey) (vd : Doc) (hv : (vk, vd) ∈ vars)
+    (hbad : sys.var? vk.text = none ∨ (∃ var, sys.var? vk.text = some var ∧ var.entity ≠ sys.personKey) ∨
+      (∃ var pvs k x, sys.var? vk.text = some var ∧ variablePairs dp vd = some pvs ∧ (k, x) ∈ pvs ∧
+        ((∃ err, parseKey k = .error err) ∨ (x.isNull = false ∧ ∃ e, checkSetValue var x = .error e))) ∨
+      (∃ var, sys.var? vk.text = some var ∧ variablePairs dp vd = none)) :
+    ∀ r, addPersonEntity sys dp (.obj kvs) ≠ .ok r := by
+  intro ⟨ids, ws⟩ h
+  obtain ⟨_, wss, hm, _⟩ := addPersonEntity_ok h
+  refine mapE_not_ok_of_mem _ kvs (idk, Doc.obj vars) hi ?_ wss hm
+  intro ws' hp
+  obtain ⟨vars', ho, hiw⟩ := personInstance_ok hp
+  simp only [Doc.asObj?, Option.some.injEq] at ho
+  subst ho
+  obtain ⟨wss', hm', _⟩ := instanceWrites_ok hiw
+  refine mapE_not_ok_of_mem _ vars (vk, vd) hv ?_ wss' hm'
+  intro ws'' hvw
+  obtain ⟨var, pvs, os, hvar, hent, hpairs, hmo, _⟩ := variableWrites_ok hvw
+  rcases hbad with hn | ⟨var', hs, hne⟩ | ⟨var', pvs', k, x, hs, hp', hkx, hb⟩ | ⟨var', hs, hp'⟩
+  · rw [hn] at hvar; cases hvar
+  · rw [hs] at hvar; cases hvar; exact hne hent
+  · rw [hs] at hvar; cases hvar
+    rw [hp'] at hpairs; cases hpairs
+    refine mapE_not_ok_of_mem _ pvs (k, x) hkx ?_ os hmo
+    intro o ho
+    obtain ⟨ck, hck, hcase⟩ := valueWrite_ok ho
+    rcases hb with ⟨err, herr⟩ | ⟨hnn, e, he⟩
+    · unfold canonKey at hck; rw [herr] at hck; cases hck
+    · rcases hcase with ⟨hnull, _⟩ | ⟨_, val, hval, _⟩
+      · simp only at hnull; rw [hnn] at hnull; cases hnull
+      · simp only at hval; rw [he] at hval; cases hval
+  · rw [hs] at hvar; cases hvar
+    rw [hp'] at hpairs; cases hpairs
+
+/-- what `checkSetValue` refuses with a situation error, class by class of the statement -/
+theorem C12_refuses_value (var : Var) :
+    -- a name that is not a member of the enumeration
+    (∀ names s, var.vtype = .enum names → s ∉ names → checkSetValue var (.str s) = .error .situation) ∧
+    -- a list of two or more items where one value is expected (repair C12c), whatever the type but text
+    (∀ xs : List Doc, 2 ≤ xs.length → var.vtype ≠ .str → checkSetValue var (.arr xs) = .error .situation) ∧
+    -- an object where a number, a date or an enum member is expected
+    (∀ kvs, var.vtype = .float ∨ var.vtype = .int ∨ var.vtype = .date ∨ (∃ n, var.vtype = .enum n) →
+      checkSetValue var (.obj kvs) = .error .situation) ∧
+    -- a word for a number
+    (∀ s : String, var.vtype = .float ∨ var.vtype = .int → s.toList.all exprAlphabet = false →
+      isPlainWord s.toList = true → checkSetValue var (.str s) = .error .situation) ∧
+    -- text over the arithmetic alphabet that is not an expression (`1 +`, `2018-01-01`, ``)
+    (∀ s : String, var.vtype = .float ∨ var.vtype = .int → s.toList.all exprAlphabet = true →
+      hasPower s.toList = false → s.toList.head? ≠ some ' ' →
+      (lexExpr (s.toList.length + 1) s.toList = none ∨
+        ∃ toks, lexExpr (s.toList.length + 1) s.toList = some toks ∧ parseUnary toks = none) →
+      checkSetValue var (.str s) = .error .situation) ∧
+    -- an impossible calendar date in ISO form
+    (∀ (s : String) (y m d : Nat), var.vtype = .date → lexIso s.toList = some (.ymd y m d) → y ≠ 0 →
+      dateOk ⟨y, m, d⟩ = false → checkSetValue var (.str s) = .error .situation) := by
+  refine ⟨?_, ?_, ?_, ?_, ?_, ?_⟩
+  · intro names s hv hs
+    unfold checkSetValue; rw [hv]; simp [hs]
+  · intro xs hl hv
+    have h1 : xs.length ≠ 1 := by omega
+    unfold checkSetValue
+    cases hvt : var.vtype <;> simp [listAsScalar, h1, hl] <;> exact absurd hvt hv
+  · intro kvs hv
+    unfold checkSetValue
+    rcases hv with h | h | h | ⟨n, h⟩ <;> rw [h]
+  · intro s hv ha hw
+    unfold checkSetValue
+    rcases hv with h | h <;> rw [h] <;> simp [numOfText, ha, hw, Except.map]
+  · intro s hv ha hp hh hl
+    have hnum : numOfText s = .error .situation := by
+      unfold numOfText
+      simp only [ha, if_true, hp, Bool.false_eq_true, if_false, hh]
+      rcases hl with hn | ⟨toks, hs, hu⟩
+      · rw [hn]
+      · rw [hs]; simp only [hu]
+    unfold checkSetValue
+    rcases hv with h | h <;> rw [h] <;> simp [hnum, Except.map]
+  · intro s y m d hv hl hy hd
+    unfold checkSetValue
+    rw [hv]
+    simp [dateOfText, hl, hy, hd, Except.map]
+
+/-- **period mismatch** (the instance of `set_input` run by the driver): a variable without
+`set_input` attribute that is not eternal refuses — with the situation error the builder makes of
+`PeriodMismatchError` — a period of another unit or of more than one unit, and `ETERNITY`;
+consequently the flush of that variable does not produce a simulation. -/
+theorem C12_refuses_period_mismatch (var : Var) (hr : var.rule = .absent) (hne : var.defUnit ≠ .eternity)
+    (count : Nat) (p : Period) (hp : p.unit ≠ var.defUnit ∨ 1 < p.size) :
+    (∀ (store : Store) (arr : Vec), arr.length = count →
+      stdSetInput store var count p arr = .error .situation) ∧
+    (∀ (buf : Buffer) (ps : List Period) (store : Store), p ∈ ps →
+      ∀ s', foldE (callStep stdSetInput buf var count) store ps ≠ .ok s') := by
+  have hmis : ∀ (store : Store) (arr : Vec), arr.length = count →
+      stdSetInput store var count p arr = .error .situation := by
+    intro store arr hl
+    unfold stdSetInput
+    by_cases he : p.unit = .eternity ∧ var.defUnit ≠ .eternity
+    · rw [if_pos he]
+    · rw [if_neg he, hr]
+      simp only
+      unfold holderSet
+      rw [if_neg (by simpa using hl)]
+      have : var.defUnit ≠ .eternity ∧ (var.defUnit ≠ p.unit ∨ p.size > 1) := by
+        refine ⟨hne, ?_⟩
+        rcases hp with h | h
+        · exact Or.inl (fun e => h e.symm)
+        · exact Or.inr h
+      rw [if_pos this]
+  refine ⟨hmis, ?_⟩
+  intro buf ps store hmem s'
+  refine foldE_not_ok_of_mem _ p ?_ ps hmem store s'
+  intro s s'' hc
+  unfold callStep at hc
+  split at hc
+  · cases hc
+  · split at hc
+    · cases hc
+    · rename_i values _ hz
+      by_cases hl : (tile (count / values.length) values).length = count
+      · rw [hmis s _ hl] at hc; cases hc
+      · -- the length test of `_to_array` comes first: an ordinary exception, still no simulation
+        unfold stdSetInput at hc
+        by_cases he : p.unit = .eternity ∧ var.defUnit ≠ .eternity
+        · rw [if_pos he] at hc; cases hc
+        · rw [if_neg he, hr] at hc
+          simp only at hc
+          unfold holderSet at hc
+          rw [if_pos hl] at hc; cases hc
+
 end OFCore.Bld
